@@ -224,6 +224,14 @@ def run(cx):
                 inst.violation(db.path, "Pending arm", "no Pending arm found (anchor)")
     from props.shared import heap_order
     heap_order(cx, "C09.k", ["event"])
+    # a resend entry must name the frame its datagram actually left in: a fragment closed into the previous frame
+    # but logged under the next one is never resent when that frame is lost, and the flush never completes
+    from props.shared import resend_ref_in_own_frame
+    resend_ref_in_own_frame(cx, "C09.m")
+    # the flush waits for acknowledgement, not delivery: a packet admitted against less than the receiver reserves for
+    # it is refused there (dud), acknowledged anyway, and the disconnect goes out with the Reliable packet undelivered
+    from props.C06 import inst_sender_alloc_pair
+    inst_sender_alloc_pair(cx, "C09.n")
 
 
 SELFTEST = [
